@@ -26,6 +26,11 @@ type libInner struct {
 	Tag  string    `json:"tag"`
 }
 
+// libWrap has no defaults of its own, but its member has (the three-level default shape)
+type libWrap struct {
+	Deep libNested `json:"deep"`
+}
+
 type libRoot struct {
 	Name   string         `json:"name"`
 	Nested libNested      `json:"nested"`
@@ -40,6 +45,8 @@ type libRoot struct {
 	Other string `json:"other"`
 	// a property that has been disabled (without a reason text): using it is an error
 	Gone string `json:"gone"`
+	// defaulted to {} ; the defaults of wrap.deep are filled in below it
+	Wrap libWrap `json:"wrap"`
 }
 
 // buildLibScope builds a struct-mapped scope whose non-pointer object members carry defaults and whose
@@ -59,6 +66,7 @@ func buildLibScope() *schema.ScopeSchema {
 		"items":  prop(schema.NewListSchema(schema.NewRefSchema("libPlain", nil), nil, nil), false, nil),
 		"excl":   schema.NewPropertySchema(schema.NewStringSchema(nil, nil, nil), nil, false, nil, nil, []string{"other"}, nil, nil),
 		"other":  prop(schema.NewStringSchema(nil, nil, nil), false, nil),
+		"wrap":   prop(schema.NewRefSchema("libWrap", nil), false, strp(`{}`)),
 		"gone": func() *schema.PropertySchema {
 			p := prop(schema.NewStringSchema(nil, nil, nil), false, nil)
 			p.Disabled = true
@@ -81,7 +89,10 @@ func buildLibScope() *schema.ScopeSchema {
 		"deep": prop(schema.NewRefSchema("libNested", nil), false, strp(`{"b":9}`)),
 		"tag":  prop(schema.NewStringSchema(nil, nil, nil), false, strp(`"tag-default"`)),
 	})
-	return schema.NewScopeSchema(root, nested, inner, plain, settings)
+	wrap := schema.NewStructMappedObjectSchema[libWrap]("libWrap", map[string]*schema.PropertySchema{
+		"deep": prop(schema.NewRefSchema("libNested", nil), false, nil),
+	})
+	return schema.NewScopeSchema(root, nested, inner, plain, settings, wrap)
 }
 
 func libValues(s Src) any {
@@ -157,6 +168,9 @@ type RacePlan struct {
 	Lib     bool         `json:"lib"`     // the struct-mapped library scope instead of a generated one
 	Rebuilt bool         `json:"rebuilt"` // the shared instance is rebuilt from a description (UnserializeScope)
 	Recipe  *ScopeRecipe `json:"recipe,omitempty"`
+	// Other: a single-feature mutation of the recipe; several goroutines compare the shared schema with ONE
+	// instance of it at the same time (ValidateCompatibility of the same pair, concurrently)
+	Other   *ScopeRecipe `json:"other,omitempty"`
 	Workers [][]RaceOp   `json:"workers"`
 }
 
@@ -167,6 +181,9 @@ func planRace(s Src, maxWorkers int, global bool) *RacePlan {
 	} else {
 		p.Recipe = GenScope(s, GenOpts{MaxObjects: 3, MaxProps: 4, MaxDepth: 2, Prefix: "R", NoRules: s.Choose("rc.norules", 2) == 0})
 		p.Rebuilt = s.Choose("rc.rebuilt", 3) == 0
+		if s.Choose("rc.other", 2) == 1 {
+			p.Other, _ = mutateRecipe(s, p.Recipe)
+		}
 	}
 	nw := 2 + s.Choose("rc.workers", maxWorkers-1)
 	for w := 0; w < nw; w++ {
@@ -174,6 +191,9 @@ func planRace(s Src, maxWorkers int, global bool) *RacePlan {
 		var ops []RaceOp
 		for i := 0; i < n; i++ {
 			op := RaceOp{Kind: []string{"unserialize", "unserialize", "roundtrip", "validate", "compat-data", "compat-self"}[s.Choose("rc.kind", 6)]}
+			if p.Other != nil && s.Choose("rc.compatother", 3) == 2 {
+				op.Kind = "compat-other"
+			}
 			if p.Lib {
 				op.Arg = libValues(s)
 			} else {
@@ -212,7 +232,20 @@ func (p *RacePlan) build() (sc *schema.ScopeSchema, why string) {
 	return r, ""
 }
 
-func raceEval(s *schema.ScopeSchema, op *RaceOp) (res pureRes) {
+// buildOther builds the producer schema of the plan's compat-other operations (nil if there is none).
+func buildOther(p *RacePlan) (o *schema.ScopeSchema) {
+	if p.Other == nil {
+		return nil
+	}
+	defer func() {
+		if recover() != nil {
+			o = nil
+		}
+	}()
+	return BuildScope(p.Other)
+}
+
+func raceEval(s *schema.ScopeSchema, op *RaceOp, other *schema.ScopeSchema) (res pureRes) {
 	defer func() {
 		if r := recover(); r != nil {
 			res = pureRes{Panic: fmt.Sprint(r)}
@@ -238,6 +271,11 @@ func raceEval(s *schema.ScopeSchema, op *RaceOp) (res pureRes) {
 		return pureRes{Err: s.ValidateCompatibility(op.Arg)}
 	case "compat-self":
 		return pureRes{Err: s.ValidateCompatibility(s)}
+	case "compat-other":
+		if other == nil {
+			return pureRes{}
+		}
+		return pureRes{Err: s.ValidateCompatibility(other)}
 	}
 	return pureRes{}
 }
@@ -433,7 +471,7 @@ func raceOps(t *testing.T, batch string, tape *rt.Tape, runIdx uint64, trace fun
 	plan := planRace(tape, maxWorkers, batch == "c13.global")
 	strat, stratName := drawStrategy(tape)
 	results := make([][]pureRes, len(plan.Workers))
-	var shared *schema.ScopeSchema
+	var shared, other *schema.ScopeSchema
 	buildWhy := ""
 	var simRef *rt.Sim
 	out := rt.Run(t, rt.Config{Tape: tape, Strategy: strat, MaxSteps: 2000000, Trace: trace, LocalSeams: true}, func(s *rt.Sim) {
@@ -442,6 +480,7 @@ func raceOps(t *testing.T, batch string, tape *rt.Tape, runIdx uint64, trace fun
 		if shared == nil {
 			return
 		}
+		other = buildOther(plan)
 		var wg sync.WaitGroup
 		for w := range plan.Workers {
 			ops := plan.Workers[w]
@@ -452,7 +491,7 @@ func raceOps(t *testing.T, batch string, tape *rt.Tape, runIdx uint64, trace fun
 				defer wg.Done()
 				for i := range ops {
 					rt.Yield(siteRaceWorker)
-					res[i] = raceEval(shared, &ops[i])
+					res[i] = raceEval(shared, &ops[i], other)
 				}
 			})
 		}
@@ -523,7 +562,7 @@ func raceOps(t *testing.T, batch string, tape *rt.Tape, runIdx uint64, trace fun
 				if fresh == nil {
 					continue
 				}
-				want := raceEval(fresh, &ops[i])
+				want := raceEval(fresh, &ops[i], buildOther(plan))
 				got := results[w][i]
 				if !sameOutcome(want, got) {
 					add("mismatch", "result-differs-from-isolation:"+ops[i].Kind, fmt.Sprintf("worker %d op %d %s(%s): in isolation %s, concurrently %s", w, i, ops[i].Kind, short(ops[i].Arg), describeRes(want), describeRes(got)))
